@@ -268,6 +268,13 @@ Definition declared (T : string) (p : pkg) : list (string * Z) :=
   map (fun e => (ce_name e, ce_val e))
       (filter (fun e => ctype_is T (ce_type e)) (named_entries (const_env p))).
 
+(* the first declared constant with value v: the name that stands for the value *)
+Definition first_name (D : list (string * Z)) (v : Z) : option string :=
+  match filter (fun nv => snd nv =? v) D with
+  | nv :: _ => Some (fst nv)
+  | [] => None
+  end.
+
 (* ------------------------------------------- str.go makeStr, literally ---- *)
 
 Record value := { v_name : string; v_bits : Z (* uint64 *); v_signed : bool }.
@@ -294,7 +301,7 @@ Fixpoint collect_block (p : pkg) (env : cenv_t) (T : string) (typ : string) (b :
   | s :: b' =>
       match vs_type s, vs_vals s with
       | TNone, _ :: _ => collect_block p env T "" b'        (* untyped with value: reset, skip *)
-      | TForeign _, _ => collect_block p env T typ b'       (* not an identifier: skip, NO reset *)
+      | TForeign _, _ => collect_block p env T "" b'        (* not an identifier: skip and reset (K_enum_foreign_carry, repaired) *)
       | TIdent t, _ =>
           if String.eqb t T
           then (names_values p env (vs_names s) ++ collect_block p env T t b')%list
@@ -311,9 +318,10 @@ Definition collect (p : pkg) (T : string) : list value :=
   let env := const_env p in
   flat_map (fun f => flat_map (collect_block p env T "") f) (p_files p).
 
-(* sort.Slice(values, less) -- modelled as insertion sort; on values that are
-   pairwise different under `less` the sorted permutation is unique
-   (EnumProofs.sorted_perm_unique), so the algorithm does not matter *)
+(* sort.SliceStable(values, less) -- modelled as insertion sort that inserts an element
+   BEFORE the elements that are not smaller, processing the list from its end: stable
+   (constants with one value keep their declaration order); the stable sorted
+   arrangement is unique, so the algorithm does not matter *)
 Definition less (a b : value) : bool :=
   if v_signed a then as_i64 (v_bits a) <? as_i64 (v_bits b) else v_bits a <? v_bits b.
 
@@ -326,6 +334,17 @@ Fixpoint insert_v (x : value) (l : list value) : list value :=
 Fixpoint sort_v (l : list value) : list value :=
   match l with [] => [] | x :: l' => insert_v x (sort_v l') end.
 
+(* the loop after the sort: `if i > 0 && values[i-1].value == v.value { continue }` -- a
+   constant whose value is already listed (an alias) is not listed again; K_enum_dup, repaired *)
+Fixpoint dedup_v (prev : option Z) (l : list value) : list value :=
+  match l with
+  | [] => []
+  | v :: l' =>
+      if match prev with Some b => b =? v_bits v | None => false end
+      then dedup_v (Some (v_bits v)) l'
+      else v :: dedup_v (Some (v_bits v)) l'
+  end.
+
 (* valueMap[name]: the literal printed into the guard *)
 Definition guard_lit (v : value) : Z :=
   if negb (v_signed v) then v_bits v else as_i64 (v_bits v).
@@ -336,7 +355,8 @@ Record flags := { f_bit : bool; f_json : bool; f_text : bool; f_sql : bool; f_go
 Record gen := {
   g_type : string;
   g_kind : kind;
-  g_names : list string;             (* NameList, sorted by value *)
+  g_names : list string;             (* NameList: one name per value (the first declared), sorted by value *)
+  g_all : list string;               (* AllNames: every constant, sorted by value (stable) *)
   g_guard : list (string * Z);       (* valueof *)
   g_strof : list (string * string);  (* strof *)
   g_enums : string;                  (* Enums *)
@@ -345,14 +365,18 @@ Record gen := {
 
 Definition make_str (p : pkg) (T : string) (k : kind) (fl : flags) : gen :=
   let vs := sort_v (collect p T) in
+  let us := dedup_v None vs in
   {| g_type := T; g_kind := k;
-     g_names := map v_name vs;
+     g_names := map v_name us;
+     g_all := map v_name vs;
      g_guard := map (fun v => (v_name v, guard_lit v)) vs;
      g_strof := map (fun v => (v_name v, trim_prefix (v_name v) T)) vs;
-     g_enums := join "," (map (fun v => "'" ++ trim_prefix (v_name v) T ++ "'") vs);
+     g_enums := join "," (map (fun v => "'" ++ trim_prefix (v_name v) T ++ "'") us);
      g_flags := fl |}.
 
-(* MakeData: nothing is generated for a type without constants *)
+(* MakeData: nothing is generated for a type without constants (for an explicitly named type
+   this is reported as an error since def717b; constants declared inside function bodies are not
+   part of the grammar and, since bdaa379, not collected either) *)
 Definition generate (p : pkg) (T : string) (fl : flags) : option gen :=
   match kind_of_type p T with
   | None => None
@@ -377,23 +401,10 @@ Definition has (x f : Z) : bool := Z.land x f =? f.
 Definition add (x f : Z) : Z := Z.lor x f.
 Definition remove (x f : Z) : Z := Z.ldiff x f.
 
-(* {{$this}} := firstLower .TypeName = strings.ToLower(TypeName[:1]): the receiver name *)
-Definition lower_ascii (c : ascii) : ascii :=
-  let n := nat_of_ascii c in
-  if Nat.leb 65 n && Nat.leb n 90 then ascii_of_nat (n + 32) else c.
-Definition recv (T : string) : string :=
-  match T with
-  | String c _ => String (lower_ascii c) EmptyString
-  | EmptyString => EmptyString
-  end.
-(* K_bit_receiver_shadow: in the -bit String() the remainder variable is called
-   {{$this}}_ ; the loop counter is i_ and the loop's flag variable is v_.  For a
-   type whose name starts with I/i the counter shadows the remainder (`i_.Has`
-   on an int: does not compile); for V/v the flag variable shadows it (compiles,
-   wrong result). *)
-Definition shadow_i (T : string) : bool := String.eqb (recv T) "i".
-Definition shadow_v (T : string) : bool := String.eqb (recv T) "v".
-Definition recv_ok (T : string) : bool := negb (shadow_i T) && negb (shadow_v T).
+(* K_bit_receiver_shadow (repaired in /repo): the receiver is named after the lower-cased
+   first letter of the type; the working copy of the receiver in the -bit String() is
+   <receiver>_ , or <receiver>x_ when that would collide with the loop's own i_ / v_.  The
+   names do not influence the behaviour any more, so they are not part of the model. *)
 
 Inductive errk := ENotString | ENotFound | EBadType.
 
@@ -412,8 +423,9 @@ Section Generated.
   Definition t_values : list Z := map (const_val ce) (g_names g).
   Definition t_string_map : list (Z * string) :=
     map (fun n => (const_val ce n, strof g n)) (g_names g).
+  (* ValueMap lists every constant, also a second name of a value *)
   Definition t_value_map : list (string * Z) :=
-    map (fun n => (strof g n, const_val ce n)) (g_names g).
+    map (fun n => (strof g n, const_val ce n)) (g_all g).
   (* const _t_max = A | B | C *)
   Definition t_max : Z := fold_left Z.lor t_values 0.
 
@@ -440,12 +452,6 @@ Section Generated.
     | None =>
         if (x <? 0) || (x >? t_max) then dec x
         else if f_bit (g_flags g) then
-          if shadow_v (g_type g) then
-            (* `v_ := values[i_]` inside the loop shadows the remainder `v_ := v`: every non-zero
-               flag "has itself" and is printed, the remainder tested after the loop is still x *)
-            let buf := fold_left (fun b v => if v =? 0 then b else b ++ ", " ++ name_of v) t_values "" in
-            if (x =? 0) && negb (String.eqb buf "") then drop 2 buf else dec x
-          else
           let '(x_, buf) := bit_loop t_values x "" in
           if (x_ =? 0) && negb (String.eqb buf "") then drop 2 buf else dec x
         else dec x
@@ -516,11 +522,11 @@ Section Generated.
                        | None => false                 (* undefined: Name *)
                        end) (g_guard g).
   (* map literals with constant keys: duplicate keys are compile errors *)
-  Definition keys_ok : bool := nodup_z t_values && nodup_s (t_strings g).
+  Definition keys_ok : bool := nodup_z t_values && nodup_s (map fst t_value_map).
 
   (* bit_map_bug: K_bit_map is present (the template references _t_map) *)
   Definition compiles (bit_map_bug : bool) : bool :=
-    guard_ok && keys_ok && negb (f_bit (g_flags g) && (bit_map_bug || shadow_i (g_type g))).
+    guard_ok && keys_ok && negb (f_bit (g_flags g) && bit_map_bug).
 End Generated.
 
 (* ------------------------------------------------ grammar well-formedness -- *)
@@ -558,22 +564,7 @@ Fixpoint carried_len_ok (n : nat) (b : cblock) : bool :=
 Definition shape_ok (p : pkg) : bool :=
   forallb (fun b => block_shape_ok true b && carried_len_ok 0 b) (all_blocks p).
 
-(* guards of the refinement collect = declared *)
-(* K_enum_foreign_carry: a spec with a non-identifier (qualified) type is skipped by the walk WITHOUT
-   resetting the remembered type; that is harmless exactly when the spec after it (if any) has its own
-   values (it then sets or resets the remembered type before it is used) *)
-Fixpoint foreign_ok_block (b : cblock) : bool :=
-  match b with
-  | [] => true
-  | s :: b' =>
-      (match vs_type s, b' with
-       | TForeign _, s' :: _ => match vs_vals s' with [] => false | _ :: _ => true end
-       | _, _ => true
-       end) && foreign_ok_block b'
-  end.
-
-Definition foreign_ok (p : pkg) : bool := forallb foreign_ok_block (all_blocks p).
-
+(* guard of the refinement collect = declared *)
 (* no spec without a type whose expression is typed (`AB = A | B`): K_enum_implicit_type *)
 Definition no_implicit (p : pkg) : bool :=
   forallb (fun e => negb (ce_implicit e)) (const_env p).
